@@ -108,7 +108,7 @@ Proof. exact budget_refuted_clear_race_l. Qed.
    data survives, and after the unpin the page can be evicted *)
 Example c35_witness :
   let progs := [(0%nat, [OGetIns 0 true 11; OWrite 0 12; OUnpin 0]); (1%nat, [OGetIns 64 true 21; OGetIns 64 true 22; ORead 0])] in
-  let s := run step (sched_of [(0%nat, 11%nat); (1%nat, 12%nat); (0%nat, 2%nat); (1%nat, 40%nat)]) (init_st 64 4194304 0 0 progs) in
+  let s := run step (sched_of [(0%nat, 12%nat); (1%nat, 13%nat); (0%nat, 2%nat); (1%nat, 40%nat)]) (init_st 64 4194304 0 0 progs) in
   (NSH <= 64)%nat /\ progs_no_clear progs /\ NoDup (map fst progs) /\
   idle_b s = true /\ gleak s = false /\ grace s = false /\
   option_map res (lget (thr s) 1%nat) = Some [RData None; RIns; RErrFull] /\
